@@ -150,6 +150,15 @@ func matchComp(_ Context, doc bsonkit.Doc, op, path string, v interface{}) error
 		// compare field with value
 		res := bsonkit.Compare(field, v)
 
+		// NaN is unordered: it only equals itself and is neither less nor
+		// greater than any other number (Compare ranks it lowest for sorting)
+		if comp && lc == bsonkit.Number && (isNaN(field) || isNaN(v)) {
+			if isNaN(field) && isNaN(v) && (op == "" || op == "$eq" || op == "$gte" || op == "$lte") {
+				return nil
+			}
+			return ErrNotMatched
+		}
+
 		// check operator
 		var ok bool
 		switch op {
@@ -172,6 +181,17 @@ func matchComp(_ Context, doc bsonkit.Doc, op, path string, v interface{}) error
 
 		return nil
 	})
+}
+
+func isNaN(v interface{}) bool {
+	switch n := v.(type) {
+	case float64:
+		return math.IsNaN(n)
+	case primitive.Decimal128:
+		return n.IsNaN()
+	}
+
+	return false
 }
 
 func matchNot(ctx Context, doc bsonkit.Doc, name, path string, v interface{}) error {
